@@ -204,6 +204,12 @@ func (smpl *Simple[Type]) gracefulStop() {
 	case <-smpl.breaker.IsBreaked():
 	case <-smpl.opts.Ctx.Done():
 	case <-done:
+		// The priority discipline has terminated, so its channel with errors is
+		// closed and reading from it does not block. Error that occurred during
+		// graceful termination must not be lost
+		if err := <-smpl.priority.Err(); err != nil {
+			smpl.err <- err
+		}
 	}
 }
 
